@@ -29,8 +29,9 @@ Clauses (texts unchanged from the former in-driver `evC15` / `finalC15` and the 
 The second half of the file composes the existing model functions (`PeerFail.recvT`, `sendT`, `pEnqueue`,
 `pTask` over `Net.Script.world`; nothing is re-defined) into the scenario the harness plays, lists the
 observations the MODEL produces for an arbitrary history (`modelTrace`) and proves
-`model_satisfies_spec`: the predicate accepts the model's trace of every history that satisfies the
-environment assumptions K1 / A-TCP (`histOk`, decidable).
+`model_satisfies_spec_partial`: the predicate accepts the model's trace of every history that satisfies the
+environment assumptions K1 / A-TCP (`histOk`, decidable) - for the plain socket; what a statement that includes TLS
+endpoints would need is said next to the theorem.
 -/
 namespace SockModel.PeerFail.Spec
 open SockModel.Net SockModel.Tls
@@ -2291,13 +2292,13 @@ theorem init_live (async : Bool) (rsz : Nat) (ppay : Bytes) (history : List Op) 
     Live (firstAfter history) (Sys.init async rsz ppay) history :=
   ⟨rfl, (fun _ h => by cases h), (fun _ h => by cases h), (fun _ _ _ h => by cases h)⟩
 
-/-- **model_satisfies_spec.**  For every API level (`async`), every receive buffer size, every payload of the peer and
+/-- **model_satisfies_spec_partial.**  (`_partial`: endpoints without TLS only - see the comment below.)  For every API level (`async`), every receive buffer size, every payload of the peer and
 every history of any length - any interleaving of peer sends, synchronous `Send` / `Receive` with any timeout and any
 scripted kernel answers (short writes, errors, time-outs, ready), asynchronous `Send` and driver steps with any
 `poll` result, one close / half close / reset of the peer at any point, with or without loss of unread data,
 destruction of the asynchronous socket - that satisfies the environment assumptions `histOk` (kernel sanity, K1,
 scenario played to its end), the predicate accepts every line of the model's trace and the end-of-case clauses hold. -/
-theorem model_satisfies_spec (async : Bool) (rsz : Nat) (ppay : Bytes) (history : List Op)
+theorem model_satisfies_spec_partial (async : Bool) (rsz : Nat) (ppay : Bytes) (history : List Op)
     (h : histOk async rsz ppay history = true) :
     ∃ s, specRun {} (modelTrace async rsz ppay history) = .ok s ∧ specFinal s = none := by
   obtain ⟨sp1, hrun, hR, hI, hL⟩ := run_ok (firstAfter history) history (Sys.init async rsz ppay)
@@ -2311,10 +2312,25 @@ theorem model_satisfies_spec (async : Bool) (rsz : Nat) (ppay : Bytes) (history 
     simp [modelTrace, specRun, specStep]
   rw [h0, hrun, hs]
 
+/- The full statement, NOT proved (hence `_partial` above): the same for `tls = true`, i.e. with the library side
+`Tls.sendT` / `receiveT` / `enqueue` / `aQuery` / `aTask` of `Model/Tls.lean` over an engine `E : Engine σ`,
+
+  theorem model_satisfies_spec (C : Cfg) (E : Engine σ) (e0 : σ) (async tls : Bool) (rsz : Nat) (ppay : Bytes)
+      (history : List Op) (h : histOk … history = true) (hE : <the engine is a faithful TLS implementation>) :
+      ∃ s, specRun {} (modelTrace C E e0 async tls rsz ppay history) = .ok s ∧ specFinal s = none
+
+What is missing is `hE`: the engine is abstract in the model (the driver replays OpenSSL's observed answers), so
+"delivered is a prefix of / all of what the peer sent", "no logic_error" (`DriverPending`: "unexpected receive") and
+"the failure is reported" are for a TLS endpoint statements about which plaintext `SSL_read` hands out and that it
+answers a dead connection with a fatal code - hypotheses on a function-valued `Engine` that are not decidable and
+amount to the conclusion.  The engine-independent clauses are theorems of the TLS model already
+(`nosignal_everywhere`, `tls_peer_failure_reported` in Props/C15.lean); the wait-budget clause for the TLS glue would
+need `Script.calls` related to `Glue.remainingTime` through `interp` (not done). -/
+
 /-- the check the driver performs (`specRun`, then `specFinal`) passes on every trace of the model -/
 theorem model_passes_check (async : Bool) (rsz : Nat) (ppay : Bytes) (history : List Op)
     (h : histOk async rsz ppay history = true) : specCheck (modelTrace async rsz ppay history) = .ok () := by
-  obtain ⟨s, hs, hf⟩ := model_satisfies_spec async rsz ppay history h
+  obtain ⟨s, hs, hf⟩ := model_satisfies_spec_partial async rsz ppay history h
   simp [specCheck, hs, hf]
 
 
